@@ -32,7 +32,8 @@ vars == <<cfg, last, steps, base>>
 
 \* rng: the sweep has one more variable r given as a RANGE [lo, hi, steps, endpoint, scale]; expl: the author wrote the
 \* defaults (endpoint: true, scale: linear) out -- a spelling, not a meaning
-NoRng == [on |-> FALSE, lo |-> 0, hi |-> 0, steps |-> 0, endp |-> TRUE, log |-> FALSE, expl |-> FALSE]
+NoRng == [on |-> FALSE, lo |-> 0, hi |-> 0, steps |-> 0, endp |-> TRUE, log |-> FALSE, expl |-> FALSE, intsp |-> FALSE]
+\* intsp: the range bounds are written as YAML integers (lo: 1, hi: 4) instead of floats (lo: 1.0, hi: 4.0): the same range
 NoSweep == [on |-> FALSE, vname |-> "", vals |-> <<>>, ints |-> FALSE, ctx2 |-> FALSE, vorder |-> FALSE, mode |-> "", bc |-> FALSE, expr |-> <<>>, coll |-> "", el |-> "", rng |-> NoRng]
 Spellings == 0..3
 
@@ -59,7 +60,7 @@ ExprNorm(e) == IF IsWrap(e) THEN <<e[1], ExprNorm(e[2])>>
 
 \* (an entry's `al` field -- written as a YAML alias of entry al of the same node -- is not part of the meaning)
 EntryMeaning(en) == [k |-> en.k, v |-> en.v, str |-> en.str, sub |-> {[k |-> s.k, v |-> s.v] : s \in {en.sub[i] : i \in 1..Len(en.sub)}}]
-SweepMeaning(sw) == IF ~sw.on THEN sw ELSE [sw EXCEPT !.expr = ExprNorm(sw.expr), !.vorder = FALSE, !.rng.expl = FALSE]
+SweepMeaning(sw) == IF ~sw.on THEN sw ELSE [sw EXCEPT !.expr = ExprNorm(sw.expr), !.vorder = FALSE, !.rng.expl = FALSE, !.rng.intsp = FALSE]
 \* (pempty -- how an empty parameters block is written -- is not part of the meaning)
 NodeMeaning(n) == [proc |-> n.proc,
                    params |-> {EntryMeaning(n.ps[i]) : i \in 1..Len(n.ps)},
@@ -115,7 +116,9 @@ AliasSub == \E i \in 1..Len(cfg) : \E a, b \in 1..Len(cfg[i].ps) :
                /\ a < b /\ ~Involved(i) /\ cfg[i].ps[a].sub # <<>> /\ cfg[i].ps[b].sub # <<>>
                /\ SubSet(cfg[i].ps[a]) = SubSet(cfg[i].ps[b])
                /\ cfg' = [cfg EXCEPT ![i].ps[b].al = a] /\ last' = "AliasSub"
-Cosmetic == PermuteKeys \/ PermuteSubKeys \/ Respell \/ Requote \/ Reflow \/ CommuteExpr \/ CommuteInner \/ CommuteUnder \/ PermuteVars \/ Alias \/ AliasSub \/ EmptyParams \/ ExplicitDefault
+RangeBoundSpelling == \E i \in 1..Len(cfg) : cfg[i].sweep.on /\ cfg[i].sweep.rng.on
+                  /\ SetNode(i, [cfg[i] EXCEPT !.sweep.rng.intsp = ~@]) /\ last' = "RangeBoundSpelling"
+Cosmetic == RangeBoundSpelling \/ PermuteKeys \/ PermuteSubKeys \/ Respell \/ Requote \/ Reflow \/ CommuteExpr \/ CommuteInner \/ CommuteUnder \/ PermuteVars \/ Alias \/ AliasSub \/ EmptyParams \/ ExplicitDefault
 
 (******************************* semantic actions *************************)
 OtherProc(p) == IF p = "FloatMultiplyOperation" THEN "VNestedOperation" ELSE "FloatMultiplyOperation"
@@ -168,7 +171,7 @@ Next == /\ steps < MaxSteps /\ steps' = steps + 1 /\ base' = cfg
         /\ (Cosmetic \/ Semantic)
 Spec == Init /\ [][Next]_vars
 
-CosmeticNames == {"PermuteKeys", "PermuteSubKeys", "Respell", "Requote", "Reflow", "CommuteExpr", "CommuteInner", "CommuteUnder", "PermuteVars", "Alias", "AliasSub", "EmptyParams", "ExplicitDefault"}
+CosmeticNames == {"RangeBoundSpelling", "PermuteKeys", "PermuteSubKeys", "Respell", "Requote", "Reflow", "CommuteExpr", "CommuteInner", "CommuteUnder", "PermuteVars", "Alias", "AliasSub", "EmptyParams", "ExplicitDefault"}
 CosmeticKeepsMeaning == (last \in CosmeticNames) => Meaning(cfg) = Meaning(base)
 SemanticChangesMeaning == (last # "" /\ last \notin CosmeticNames) => Meaning(cfg) # Meaning(base)
 
